@@ -227,3 +227,61 @@ if __name__ == "__main__":
         for n, s in items:
             if sys.argv[2] in n:
                 print(s)
+
+
+def gen_jit(seed=0):
+    """Comb-only single- and two-operator designs at the JIT's width boundaries (<= 128 bits: native
+    Cranelift integer types; wider values go through the wide_* helpers, decided by the Kani harnesses)."""
+    rnd = random.Random(seed + 7)
+    out = []
+
+    def add(name, src):
+        out.append((f"jit::{name}", src))
+    widths = [1, 8, 31, 32, 33, 63, 64, 65, 100, 127, 128, rnd.randint(66, 126)]
+    ops = [("add", "+"), ("sub", "-"), ("mul", "*"), ("and", "&"), ("or", "|"), ("xor", "^"), ("xnor", "~^"),
+           ("eq", "=="), ("ne", "!="), ("lt", "<:"), ("le", "<="), ("gt", ">:"), ("ge", ">=")]
+    for w in widths:
+        for sg in (False, True):
+            body = []
+            ports = [("a", "input ", lg(w, sg)), ("b", "input ", lg(w, sg))]
+            for (n, o) in ops:
+                rel = n in ("eq", "ne", "lt", "le", "gt", "ge")
+                ports.append((f"y_{n}", "output", lg(1 if rel else w, sg and not rel)))
+                body.append(f"    assign y_{n} = a {o} b;")
+            name = f"J_ops_{w}_{'s' if sg else 'u'}"
+            add(name, mod(name, ports, "\n".join(body)))
+        # division separately (x/0 is assumed away by the miter)
+        if w <= 64:
+            for sg in (False, True):
+                name = f"J_div_{w}_{'s' if sg else 'u'}"
+                add(name, mod(name, [("a", "input ", lg(w, sg)), ("b", "input ", lg(w, sg)),
+                                     ("q", "output", lg(w, sg)), ("r", "output", lg(w, sg))],
+                              "    assign q = a / b;\n    assign r = a % b;"))
+        # shifts with amounts that can reach and exceed the width
+        for aw in sorted({clog2(w), clog2(w) + 1, 8}):
+            name = f"J_sh_{w}_{aw}"
+            add(name, mod(name, [("a", "input ", lg(w)), ("sa", "input ", lg(w, True)), ("s", "input ", lg(aw)),
+                                 ("l", "output", lg(w)), ("r", "output", lg(w)), ("ar", "output", lg(w, True)),
+                                 ("al", "output", lg(w, True))],
+                          "    assign l  = a << s;\n    assign r  = a >> s;\n    assign ar = sa >>> s;\n    assign al = sa <<< s;"))
+        name = f"J_un_{w}"
+        add(name, mod(name, [("a", "input ", lg(w)), ("n", "output", lg(w)), ("m", "output", lg(w)),
+                             ("ra", "output", "logic"), ("ro", "output", "logic"), ("rx", "output", "logic"),
+                             ("ln", "output", "logic")],
+                      "    assign n  = ~a;\n    assign m  = -a;\n    assign ra = &a;\n    assign ro = |a;\n"
+                      "    assign rx = ^a;\n    assign ln = !(|a);"))
+    # mixed widths / context extension / multi-operator
+    for (wa, wb, wy) in [(8, 16, 24), (33, 64, 65), (64, 64, 128), (100, 28, 128), (5, 3, 6)]:
+        for sg in (False, True):
+            name = f"J_mix_{wa}_{wb}_{wy}_{'s' if sg else 'u'}"
+            add(name, mod(name, [("a", "input ", lg(wa, sg)), ("b", "input ", lg(wb, sg)), ("c", "input ", lg(wy, sg)),
+                                 ("y", "output", lg(wy, sg)), ("z", "output", lg(wy, sg)), ("t", "output", "logic")],
+                          "    assign y = a + b;\n    assign z = (a * b) - c;\n    assign t = (a + b) <: c;"))
+    name = "J_tern"
+    add(name, mod(name, [("s", "input ", lg(2)), ("a", "input ", lg(70, True)), ("b", "input ", lg(40, True)),
+                         ("y", "output", lg(80, True))],
+                  "    assign y = if s == 0 ? a : if s == 1 ? b : if s == 2 ? a + b : a - b;"))
+    name = "J_concat"
+    add(name, mod(name, [("a", "input ", lg(30)), ("b", "input ", lg(50)), ("y", "output", lg(110)), ("z", "output", lg(64))],
+                  "    assign y = {a, b, a};\n    assign z = {a[1:0], b[49:0], a[11:0]};"))
+    return out
